@@ -217,6 +217,10 @@ func TestVerif_Routing(t *testing.T) {
 		asked := verifRoutingAsk(stk, sc.Spelling, listed)
 		target, hdrs, body := verifRequestFor(sc.Route, fmt.Sprintf("q%d", sn), asked)
 		switch sc.CType {
+		case "bigjson":
+			// a body beyond the 1 MiB the inspector looks at (a long conversation, an inlined image): still a request
+			// that names its model, first thing
+			body = strings.Replace(body, `"content":"hello `, `"content":"`+strings.Repeat("lorem ipsum ", 140000)+` hello `, 1)
 		case "form", "none":
 			kept := hdrs[:0:0]
 			for _, h := range hdrs {
